@@ -27,6 +27,9 @@ def parse_cases(text):
         elif line.startswith("BDEF "):
             _, n, b = line.split(" ", 2)
             cur["bdefs"].append((n, b))
+        elif line.startswith("RESTART-FAILED "):
+            cur["restart_failed"] = line[len("RESTART-FAILED "):]
+            cur["failed_op"] = cur["restart_failed"].split(" @@ ")[0]
         elif line.startswith("HARNESS-PANIC"):
             cur["panic"] = line
         elif line.startswith("END"):
@@ -53,7 +56,8 @@ def case_defs(c):
         if obs not in names:
             names[obs] = "ob%d_%d" % (c["idx"], len(names))
             out.append("Definition %s : tr := %s." % (names[obs], obs))
-        steps.append("(%s, %d, %s)" % (op, res, names[obs]))
+        xop = op if op.startswith(("(XCrash", "XRestart", "(XOp")) else "(XOp %s)" % op
+        steps.append("(%s, %d, %s)" % (xop, res, names[obs]))
     out.append("Definition case_%d := (init_state %d %s, [%s])." % (c["idx"], c["init"][0], c["init"][1], ";\n".join(steps)))
     return "\n".join(out) + "\n"
 
@@ -217,6 +221,10 @@ MON_EXPRS = {
     "noop": "noop_trace_bad 0 (fst @CASE@) (observe (fst @CASE@)) (snd @CASE@)",
     "c04": "c04_trace_ok (k_init_h (fst @CASE@)) None (obs_of (snd @CASE@))",
     "c07": "first_bad (c07_obs_ok (let v := k_init_vs (fst @CASE@) in TL [TB (vs_pkh v); TB (vs_vph v); TL (map TN (vs_keys v)); TL (map TN (vs_pows v))])) 0 (obs_of (snd @CASE@))",
+    "c10obs": "restart_obs_bad c10_restart_obs_ok 2 0 (fst @CASE@) (snd @CASE@)",
+    "c10obs_shifted": "restart_obs_bad c10_restart_obs_ok 1 0 (fst @CASE@) (snd @CASE@)",
+    "c10conv": "conv_trace_bad 2 0 (fst @CASE@) (snd @CASE@)",
+    "c10ahead": "conv_trace_bad 1 0 (fst @CASE@) (snd @CASE@)",
     "c01": "first_bad (c01_obs_ok (collect_vals [] (obs_of (snd @CASE@)))) 0 (obs_of (snd @CASE@))",
 }
 
@@ -225,7 +233,7 @@ def mon_failed(val):
     return val not in ("None", "true")
 
 
-def mirror_check(c, prop_file, monitors, what, quick=(40, 30), thorough=(600, 40)):
+def mirror_check(c, prop_file, monitors, what, quick=(40, 30), thorough=(600, 40), extra=()):
     """Common body of the mirror-kernel checks. monitors: names from MON_EXPRS that decide this property."""
     c.trusted += [
         "translator /verif/translate for kState.FindView and the result enumerations (Gen/Kernel.v), thresholds (Gen/Math.v)",
@@ -254,7 +262,7 @@ def mirror_check(c, prop_file, monitors, what, quick=(40, 30), thorough=(600, 40
         import json
         rp = json.load(open(c.replay))
         seeds = [(rp.get("batch_seed"), rp.get("batch_cases", 5), rp.get("ops", nops))]
-    cases, stats, crashes = run_harness(c, binary, c.seed, ncases, nops)
+    cases, stats, crashes = run_harness(c, binary, c.seed, ncases, nops, extra=extra)
     model_ok = tok
     if tok:
         okm, mlog = c.coq_make(["Model/MirrorObs.vo", "Monitors/MirrorM.vo"])
